@@ -187,6 +187,14 @@ def run(tier, seed):
         if not verdict_eq(a, b):
             res.violation("decode_cbor(%s): implementation %s, model (RFC 8949 by theorem decode_spec) %s" % (bs.hex(), a, b),
                           {"cmd": "D", "input_hex": bs.hex(), "impl": a, "model": b})
+    # known finding: witness of C11_to_value_injective_refuted replayed on the implementation
+    for kf in common.known_findings(PROP):
+        if kf["id"] == "kf-c11-undefined-null":
+            a6, a7 = common.run_tool(drv, ["D\tf6", "D\tf7"])
+            if a6 == a7 and a6.startswith("OK"):
+                res.known(kf)
+            else:
+                res.notes.append("finding %s apparently repaired: f6 -> %s, f7 -> %s" % (kf["id"], a6, a7))
     # vm_compute slice: guards extraction
     sl = rng.sample(cases, 150) + cases[:len(CORPUS)]
     vm = common.vm_compute_slice(PROP, "From Cddl Require Import Base.Bytes Cbor.Wire.",
